@@ -1,0 +1,41 @@
+//go:build verif
+
+package pdf
+
+import "reflect"
+
+// This file is only compiled with the build tag "verif".  It lets an external
+// verification harness stop a goroutine at the points of [DecodeExclusive]
+// which lie between two critical sections and contain no call-out, and look
+// at (never change) the extractor's cache.  It adds no behaviour of its own.
+
+// VerifYield, when set, is called at the scheduling points of
+// DecodeExclusive ("ex:owner", "ex:wait", "ex:pre-publish", "ex:pre-close", "ex:closed").
+var VerifYield func(point string)
+
+func verifYield(point string) {
+	if f := VerifYield; f != nil {
+		f(point)
+	}
+}
+
+// VerifCacheLookup returns the value cached for (ref, tp), under the lock.
+func VerifCacheLookup(x *Extractor, ref Reference, tp reflect.Type) (any, bool) {
+	return x.cacheGet(extractorKey{ref: ref, tp: tp})
+}
+
+// VerifCacheEach calls f for every cache entry, under the lock.
+func VerifCacheEach(x *Extractor, f func(ref Reference, tp reflect.Type, v any)) {
+	x.mu.Lock()
+	defer x.mu.Unlock()
+	for k, v := range x.cache {
+		f(k.ref, k.tp, v)
+	}
+}
+
+// VerifWipLen returns the number of exclusive decodes in progress.
+func VerifWipLen(x *Extractor) int {
+	x.mu.Lock()
+	defer x.mu.Unlock()
+	return len(x.wip)
+}
